@@ -10,6 +10,7 @@ import MidoModel.PortsSeq
 import MidoModel.Socket
 import MidoModel.MsgObj
 import MidoModel.Heap
+import MidoModel.Strings
 /- Text protocol helpers for the driver: parsing requests, printing canonical results. -/
 namespace Mido
 
@@ -278,6 +279,9 @@ def HObj.show (o : HObj) : String := (if o.frozen then "F:" else "U:") ++ o.body
 def HOut.show : HOut → String
   | .ref i => s!"ref {i}" | .none => "none" | .raised e => "err " ++ e.name | .bool b => if b then "true" else "false"
   | .hashed items => "hash " ++ " ".intercalate (items.map (fun kv => kv.1 ++ "=" ++ kv.2.show)) | .unit => "ok"
+
+def StreamOut.show : StreamOut → String
+  | .msg m => "msg " ++ m.show | .error n => s!"error {n}" | .abort e => "abort " ++ e.name
 
 /-- run-length compression `x*n` of equal neighbours, joined by `;` -/
 def rle (xs : List String) : String :=
